@@ -114,6 +114,28 @@ def absent_edges(F, f, depth=0):
     return out, n_probes
 
 
+def adds_row(F, name, depth=0, seen=None):
+    """is `name` a function that stores a row: CaoHashMap's insert / insert_with_hint / entry, or a function of CaoLangTable
+    (nested fns included) that - itself or through another such function - adds to the hash part `map`?"""
+    if name.endswith("CaoHashMap::insert") or name.endswith("CaoHashMap::insert_with_hint") or name.endswith("CaoHashMap::entry"):
+        return True
+    if not name.startswith(TABLE + "::") or depth > 3:
+        return False
+    seen = set() if seen is None else seen
+    if name in seen:
+        return False
+    seen.add(name)
+    g = F.fn(name, required=False)
+    if g is None or g.hir is None:
+        return False
+    if any(e["half"] == "map" and e["kind"] == "add" for e in events(g)):
+        return True
+    for x in hir_walk(g.hir["body"]):
+        if x.get("k") in ("call", "mcall") and any(adds_row(F, n, depth + 1, seen) for n in hir_callee(x)):
+            return True
+    return False
+
+
 def rule_a(F):
     from cao.facts import callee_names
     from cao import mirutil as mu
@@ -122,7 +144,7 @@ def rule_a(F):
     cfg = f.cfg
     key = "C07/A/append/key-tested-absent"
     inserts = [(bi, t) for bi, t in mu.calls(f) if any(n.endswith("CaoLangTable::insert") or n.endswith("::_insert") or n.endswith("CaoHashMap::insert")
-                                                        for n in callee_names(t["func"]))]
+                                                        or adds_row(F, n) for n in callee_names(t["func"]))]
     if not inserts:
         raise AnchorMissing("insert call in CaoLangTable::append")
     # blocks entered when contains(..) answered false (in append itself or in the helper that searches the free index)
